@@ -1294,6 +1294,8 @@ def _into_iter(I, a, ci, dt):
         else:
             I.store(a[0], MapVal((), v.kind))
         return to_iter(I, v)
+    if isinstance(a[0], Struct) and ci.method == 'into_iter':
+        return a[0]          # a crate type that is its own iterator
     return to_iter(I, a[0])
 
 
